@@ -8,7 +8,7 @@ Import ListNotations.
 From C16 Require Import PModel PAgree.
 
 Definition p_ag_socks : list p_cfg :=
-  filter (fun c => match pc_kind (hd p_dflt c) with PSock => true | PPipe => false end) p_ag_cfgs.
+  filter (fun c => match pc_kind (hd p_dflt c) with PSock => true | _ => false end) p_ag_cfgs.
 Definition p_ag_all_w (n : nat) : bool :=
   forallb (fun c => forallb (p_ag_case c) (p_ag_seqs_w n)) p_ag_socks.
 Lemma p_ag_bounded_w : p_ag_all_w 5 = true.
